@@ -254,6 +254,25 @@ func (V *Verifier) newExec(fn *ssa.Function, fc *FuncContract, sigma Subst, inst
 	return x
 }
 
+// bindContractParams makes the parameter names written in the contract header refer to the
+// function's parameters by position (the receiver, if any, is parameter 0 and is skipped when the
+// header lists one name fewer), so that renaming a parameter in the code does not affect the contract.
+func (x *Exec) bindContractParams(arg func(i int) Value) {
+	if x.fc == nil || len(x.fc.Params) == 0 || x.fn == nil {
+		return
+	}
+	n := len(x.fn.Params)
+	off := n - len(x.fc.Params)
+	if off < 0 || off > 1 {
+		return
+	}
+	for i, name := range x.fc.Params {
+		if name != "" && name != "_" {
+			x.names[name] = arg(i + off)
+		}
+	}
+}
+
 // initialState builds the entry state: arbitrary arguments satisfying the typed-memory invariants.
 func (x *Exec) initialState() *State {
 	st := &State{env: map[ssa.Value]Value{}, heap: map[*Obj]*Content{}, alloc: IntC(0), entryOf: map[*ssa.BasicBlock]*State{}, variant: map[*ssa.BasicBlock]*Term{}, callOrd: map[string]int{}}
@@ -269,6 +288,7 @@ func (x *Exec) initialState() *State {
 		st.env[p] = v
 		x.names[p.Name()] = v
 	}
+	x.bindContractParams(func(i int) Value { return st.env[x.fn.Params[i]] })
 	return st
 }
 
@@ -544,6 +564,7 @@ func (x *Exec) applyContract(st *State, fc *FuncContract, origin *ssa.Function, 
 			}
 		}
 	}
+	cx.bindContractParams(func(i int) Value { return args[i] })
 	label := calleeLabel(fc, in, x)
 	pre := st.clone()
 	cx.old = pre
